@@ -232,8 +232,12 @@ func (fr *Frame) exec(ins ssa.Instruction, b *ssa.BasicBlock, h Heap) {
 	case *ssa.Panic:
 		fr.safetyOblig("no-panic", "explicit panic is unreachable", reach, "false")
 	case *ssa.Range:
-		// iteration state is opaque
-		fr.vals[x] = Val{T: "0", Ty: x.Type(), S: "Int"}
+		if mt, isM := x.X.Type().Underlying().(*types.Map); isM && !u.so.bv {
+			fr.execRange(x, mt, reach, h)
+		} else {
+			// iteration state is opaque
+			fr.vals[x] = Val{T: "0", Ty: x.Type(), S: "Int"}
+		}
 	case *ssa.Next:
 		fr.execNext(x, reach, h)
 	case *ssa.Select:
@@ -811,9 +815,109 @@ func (fr *Frame) execLookup(x *ssa.Lookup, reach string, h Heap) {
 	}
 }
 
+// rangeFuns declares the ghost functions of the map-range model for key type kt:
+// rangekey(it)[j] is the j-th key produced by iterator it, rangeidx(it, k) the position at
+// which key k is produced (which makes the enumeration injective), rangedom(it) the domain
+// of the map and rangelen(it) its length when the iteration started.
+func (u *Unit) rangeFuns(kt types.Type) (keyF, idxF, domF string) {
+	ks := u.so.sortOf(kt)
+	k := mangle(typeKey(kt))
+	keyF, idxF, domF = "rangekey_"+k, "rangeidx_"+k, "rangedom_"+k
+	u.declFun(keyF, "(Int) "+arrSort("Int", ks))
+	u.declFun(idxF, "(Int "+ks+") Int")
+	u.declFun(domF, "(Int) "+arrSort(ks, "Bool"))
+	u.declFun("rangelen", "(Int) Int")
+	return
+}
+
+// execRange: `range m` over a map creates an iterator (a fresh reference).  Go's semantics
+// for a map that is not modified during the iteration (language semantics, like those of
+// every other instruction): the iteration produces len(m) keys, each in the map, no key
+// twice, in an unspecified order.  The position of the iterator is the heap component
+// RangePos; execNext uses the enumeration only for loops that provably leave the map alone.
+func (fr *Frame) execRange(x *ssa.Range, mt *types.Map, reach string, h Heap) {
+	u := fr.u
+	m := fr.valOf(x.X).T
+	it := fr.newRef(h, "rangeit")
+	keyF, idxF, domF := u.rangeFuns(mt.Key())
+	d, ds, _, _, n, ns := u.mapComps(mt)
+	dom := sel(u.comp(h, d, ds), m)
+	ln := app("rangelen", it)
+	u.assume(implies(reach, eq(ln, ite(eq(m, "0"), "0", sel(u.comp(h, n, ns), m)))))
+	u.assume(implies(reach, app("<=", "0", ln)))
+	u.assume(implies(reach, eq(app(domF, it), dom)))
+	u.nfresh++
+	j := fmt.Sprintf("j!q%d", u.nfresh)
+	kj := sel(app(keyF, it), j)
+	u.assume(implies(reach, fmt.Sprintf("(forall ((%s Int)) (! %s :pattern (%s)))", j,
+		implies(and(app("<=", "0", j), app("<", j, ln)), and(sel(dom, kj), eq(app(idxF, it, kj), j))), kj)))
+	pc := u.comp(h, "RangePos", "(Array Int Int)")
+	h["RangePos"] = u.define("RangePos", "(Array Int Int)", sto(pc, it, "0"))
+	fr.vals[x] = Val{T: it, Ty: x.Type(), S: "Int"}
+}
+
+// mapRangeOf: the map Range instruction iterated by x when the enumeration model applies:
+// the loop around x must not modify any map of that type (directly or through calls).
+func (fr *Frame) mapRangeOf(x *ssa.Next) (*ssa.Range, *types.Map) {
+	rg, isR := x.Iter.(*ssa.Range)
+	if !isR || x.IsString || fr.u.so.bv {
+		return nil, nil
+	}
+	mt, isM := rg.X.Type().Underlying().(*types.Map)
+	if !isM {
+		return nil, nil
+	}
+	if v, ok := fr.vals[rg]; !ok || v.T == "0" {
+		return nil, nil
+	}
+	d, _, _, _, _, _ := fr.u.mapComps(mt)
+	var li *loopInfo
+	for _, l := range fr.loops {
+		if l.body[x.Block().Index] && (li == nil || len(l.body) < len(li.body)) {
+			li = l
+		}
+	}
+	if li == nil || li.mods[d] || li.body[rg.Block().Index] {
+		return nil, nil
+	}
+	return rg, mt
+}
+
 func (fr *Frame) execNext(x *ssa.Next, reach string, h Heap) {
 	u := fr.u
 	tup := x.Type().(*types.Tuple)
+	if rg, mt := fr.mapRangeOf(x); rg != nil {
+		it := fr.valOf(rg).T
+		m := fr.valOf(rg.X).T
+		keyF, _, _ := u.rangeFuns(mt.Key())
+		_, _, v, vsrt, _, _ := u.mapComps(mt)
+		u.assumed["language semantics: a range over a map that the loop does not modify produces len(m) keys, each in the map, none twice, in an unspecified order"] = true
+		pc := u.comp(h, "RangePos", "(Array Int Int)")
+		pos := u.define("rangepos", "Int", sel(pc, it))
+		ok := u.define("next_ok", "Bool", app("<", pos, app("rangelen", it)))
+		ks := u.so.sortOf(mt.Key())
+		key := u.define("next_key", ks, ite(ok, sel(app(keyF, it), pos), u.so.zero(mt.Key())))
+		vs := []Val{{T: ok, Ty: types.Typ[types.Bool], S: "Bool"}, {T: key, Ty: mt.Key(), S: ks}}
+		if b, isB := tup.At(1).Type().(*types.Basic); isB && b.Kind() == types.Invalid {
+			vs[1] = Val{T: "0", Ty: tup.At(1).Type(), S: "Int"}
+		}
+		if tup.Len() > 2 {
+			t := tup.At(2).Type()
+			if b, isB := t.(*types.Basic); isB && b.Kind() == types.Invalid {
+				vs = append(vs, Val{T: "0", Ty: t, S: "Int"})
+			} else {
+				es := u.so.sortOf(mt.Elem())
+				val := u.define("next_val", es, ite(ok, sel(sel(u.comp(h, v, vsrt), m), key), u.so.zero(mt.Elem())))
+				u.assume(u.typeInv(val, mt.Elem(), fr.ctr(h)))
+				vs = append(vs, Val{T: val, Ty: mt.Elem(), S: es})
+			}
+		}
+		// model invariant: the position starts at 0 and moves only here, by one, while below the length
+		u.assume(implies(reach, and(app("<=", "0", pos), app("<=", pos, app("rangelen", it)))))
+		h["RangePos"] = u.define("RangePos", "(Array Int Int)", sto(pc, it, ite(ok, iadd(pos, "1"), pos)))
+		fr.tuples[x] = vs
+		return
+	}
 	ok := u.fresh("next_ok", "Bool")
 	vs := []Val{{T: ok, Ty: types.Typ[types.Bool], S: "Bool"}}
 	for i := 1; i < tup.Len(); i++ {
